@@ -5,7 +5,7 @@ from oracle_util import *  # noqa
 from protocol import from_real
 
 ID = "C06"
-LEAN_MODULE = "SCoda.Props.C06"
+LEAN_MODULE = ["SCoda.Props.C06", "SCoda.Props.Notes"]
 CLAUSES = [
     ("every remaining note-off lies an allowed duration after a remaining note-on of its key; the operation never fails", ["SCoda.C06.durations", "SCoda.C06.total", "SCoda.C06.pairings_twoEl"]),
     ("onset, pitch, channel and velocity of every remaining note unchanged (every note-on of the result is an unchanged input note-on)", ["SCoda.C06.onsets_kept"]),
@@ -13,7 +13,8 @@ CLAUSES = [
     ("local rule per note: the new duration fits before the next onset of its key (no overlap), is not longer than the original when extension is disabled, "
      "is closest to the original among the allowed values that fit, and the note is removed exactly when none fits",
      ["SCoda.C06.qnlChannel_spec", "SCoda.C06.validDurations_spec", "SCoda.C06.nearest_spec"]),
-    ("glue: on a sorted well-formed list the per-channel pairings are its notes in order, and the notes of the rebuilt, re-sorted list are the output pairings", None),
+    ("glue (first half): on a sorted well-formed list the per-channel pairings are exactly its notes, no imputation", ["SCoda.Notes.pairings_notes"]),
+    ("glue (second half): the notes of the rebuilt, re-sorted list are the output pairings", None),
 ]
 RULE = ("well-formed multi-channel note sets (<=8 notes, back-to-back repeated pitches, very short notes) x value lists "
         "(defaults, lists with duplicates, single values) x extension on/off; non-trivial = some note's duration not in the list")
